@@ -149,7 +149,7 @@ func genQuery(r *Rng, m *qMeta) []string {
 		case 13:
 			return []string{"SELECT g, usum(v), usum(v, 100) FROM a GROUP BY g;"}
 		case 14:
-			return []string{"SELECT id, usum(v) OVER (PARTITION BY g ORDER BY id) AS us, LAG(v) OVER (PARTITION BY g ORDER BY id) AS lg, FIRST_VALUE(s) OVER (PARTITION BY g ORDER BY id) AS fs FROM a;"}
+			return []string{"SELECT id, usum(v) OVER (PARTITION BY g ORDER BY id) AS us, usum(v, id) OVER (PARTITION BY g) AS us2, usum(v, 1000) OVER (PARTITION BY s ORDER BY id) AS us3, LAG(v) OVER (PARTITION BY g ORDER BY id) AS lg, FIRST_VALUE(s) OVER (PARTITION BY g ORDER BY id) AS fs FROM a;"}
 		case 15:
 			if !small {
 				continue
